@@ -12,7 +12,6 @@ package participle
 
 import (
 	"reflect"
-	"strings"
 	"text/scanner"
 
 	"github.com/alecthomas/participle/v2/lexer"
@@ -116,9 +115,16 @@ func vhSoupTok(c int) vhTagTok {
 
 // vhNativeTags reconstructs, on native replay, the tag text of each field
 // from the recorded choices.
-func vhNativeTags(nfields int) []string {
+func vhNativeTags(nfields int, names []string) []string {
 	tags := make([]string, nfields)
+	read := make([]bool, nfields)
 	field, count := 0, 0
+	fieldName := func(i int) string {
+		if i == 0 {
+			return ""
+		}
+		return names[i]
+	}
 	for field < nfields && vRT.pos < len(vRT.vals) && vRT.vals[vRT.pos].Kind == "choose" && vRT.vals[vRT.pos].Tag == "tagtok" {
 		c := int(vRT.vals[vRT.pos].Int)
 		vRT.pos++
@@ -126,11 +132,19 @@ func vhNativeTags(nfields int) []string {
 		if vhSoupSmall {
 			n = len(vhSmallAlphabet)
 		}
+		read[field] = true
+		f := vhSoupFields[fieldName(field)]
+		if f == nil {
+			f = &vhSoupField{done: true}
+			vhSoupFields[fieldName(field)] = f
+		}
 		if c == n {
 			field, count = field+1, 0
 			continue
 		}
-		tags[field] += " " + vhSoupTok(c).text
+		a := vhSoupTok(c)
+		tags[field] += " " + a.text
+		f.toks = append(f.toks, lexer.Token{Type: a.typ, Value: a.val})
 		count++
 		if count >= vhSoupMax {
 			// the stub returns EOF without asking once the bound is reached
@@ -138,12 +152,18 @@ func vhNativeTags(nfields int) []string {
 		}
 	}
 	for i := range tags {
-		if strings.TrimSpace(tags[i]) == "" {
-			tags[i] = "A" // never lexed on this path
+		if !read[i] {
+			// a field the executor's path never lexed: any content is
+			// possible there, in particular a stray token that a correct
+			// Build must reject
+			tags[i] = ")"
+			vhSoupUnread = true
 		}
 	}
 	return tags
 }
+
+var vhSoupUnread bool
 
 type vhShapeSub struct {
 	X string `@A`
@@ -173,16 +193,17 @@ func vhSoupRun(nfields, maxTok int, small bool) {
 		types[i] = vhFieldTypes[vChoose("fieldtype", nt)]
 	}
 	tags := make([]string, nfields)
+	names := []string{"F0", "F1", "F2"}
+	vhSoupUnread = false
 	if vSymbolic() {
 		vOverride("(*github.com/alecthomas/participle/v2.tagLexer).Next", vhTagNext)
 		for i := range tags {
 			tags[i] = "x"
 		}
 	} else {
-		tags = vhNativeTags(nfields)
+		tags = vhNativeTags(nfields, names)
 	}
 	fields := make([]reflect.StructField, nfields)
-	names := []string{"F0", "F1", "F2"}
 	for i := range fields {
 		fields[i] = reflect.StructField{Name: names[i], Type: types[i], Tag: reflect.StructTag(tags[i])}
 	}
@@ -197,8 +218,60 @@ func vhSoupRun(nfields, maxTok int, small bool) {
 		return
 	}
 	vReach("built")
+	// A grammar can only be accepted after every token of every field has
+	// been looked at (otherwise trailing garbage in a later field would go
+	// unnoticed) ...
+	for i := 0; i < nfields; i++ {
+		name := names[i]
+		if i == 0 {
+			name = ""
+		}
+		f := vhSoupFields[name]
+		if vSymbolic() {
+			vAssert(f != nil && (f.done || len(f.toks) >= vhSoupMax), "C19: Build accepted the grammar without reading every field's tag to its end")
+		}
+	}
+	if !vSymbolic() {
+		// natively an unread field holds a stray ")": a Build that did not
+		// read it accepts a malformed grammar
+		vAssert(!vhSoupUnread, "C19: Build accepted the grammar without reading every field's tag to its end")
+	}
+	// ... and only if the token sequence is a sentence of the documented tag
+	// language (decided by the reference tag parser of zz_verif_ref.go).
+	if !vhSoupUnread {
+		var toks []vtag
+		for i := 0; i < nfields; i++ {
+			name := names[i]
+			if i == 0 {
+				name = ""
+			}
+			for _, t := range vhSoupFields[name].toks {
+				kind := byte('p')
+				switch t.Type {
+				case scanner.Ident:
+					kind = 'i'
+				case scanner.String, scanner.RawString, scanner.Char:
+					kind = 's'
+				}
+				toks = append(toks, vtag{kind, t.Value, i})
+			}
+		}
+		vAssert(vhRefSyntaxOK(toks), "C19: Build accepted a tag that is not a sentence of the documented tag language")
+	}
 	verr := validate(node)
 	vObserve("built", verr == nil)
+}
+
+// vhRefSyntaxOK runs the reference tag parser on a token sequence (syntax only).
+func vhRefSyntaxOK(toks []vtag) (ok bool) {
+	defer func() {
+		if recover() != nil {
+			ok = false
+		}
+	}()
+	p := &vtagParser{toks: toks, syntaxOnly: true}
+	p.disj()
+	return p.peek().kind == 0
 }
 
 func VH_C19_Soup1() { vhSoupRun(1, vhMaxTagTokens, false) }
